@@ -306,6 +306,9 @@ class Ref:
         elif k == 'scalar_upper':
             if node[0] == 's' and node[1] == TAGP + 'str':
                 node = ['s', node[1], node[2].upper()]
+        elif k == 'scalar_to_map_opt':
+            if node[0] == 's' and node[1] in (TAGP + 'str', TAGP + 'null'):
+                node = ['m', pt.MAP, [[pt.s(op[1]), ['s', node[1], node[2]]]]]
         elif k == 'scalar_to_map':
             if node[0] == 's' and node[1] == TAGP + 'str':
                 node = ['m', pt.MAP, [[pt.s(op[1]), pt.s(node[2])]]]
